@@ -100,9 +100,12 @@ def weak1 (i : GcIn) (w : WState) : RefProc.RefState :=
 
 def fin1 (i : GcIn) (w : WState) : RefProc.FinState := w.fin.scan (live1 i w)
 
-/-- marked set after the ready finalizable objects were traced (FinalRefClosure) -/
+/-- marked set after FinalRefClosure: `FinalizableProcessor::scan` passes every examined registration through
+`keep_alive` (`trace_object`) — the ready ones (resurrected with their closure) and the live candidates too, which
+matters for a candidate that is `live` without having been traced (an unreachable object of a never-collected
+space: it is traced now and keeps its referents alive) -/
 def marked2 (i : GcIn) (w : WState) : Array Bool :=
-  reachFrom i.heap (i.seeds ++ retained i w ++ (fin1 i w).ready.map (·.2))
+  reachFrom i.heap (i.seeds ++ retained i w ++ (fin1 i w).ready.map (·.2) ++ (fin1 i w).candidates.map (·.2))
 
 def live2 (i : GcIn) (w : WState) : Nat → Bool := liveOf (marked2 i w) i.immortal i.heap.objs.size
 
